@@ -401,7 +401,6 @@ func TestC19(t *testing.T) {
 	})
 }
 
-
 // c19Rename prefixes every metric name of the program.
 func c19Rename(p *gen.Program, prefix string) {
 	ren := map[string]string{}
